@@ -24,10 +24,53 @@ func main() {
 	loop := flag.Int("loop", 0, "debug: loop bound for -dump")
 	shareddbg := flag.Bool("shared", false, "debug: list writes to shared locations")
 	mapdbg := flag.Bool("maporder", false, "debug: list all range-over-map sites with their class")
+	listsyms := flag.Bool("listsyms", false, "debug: print struct fields and package variables of the module (input of an/refsyms.go)")
+	listinits := flag.Bool("listinits", false, "debug: print an/refinits.go (initialisers of package-level variables of the reference tree)")
 	listfuncs := flag.Bool("listfuncs", false, "debug: print the full names of all module functions (input of an/reffuncs.go)")
 	lintdbg := flag.Bool("lints", false, "debug: run every control-flow lint over every module function")
 	paritydbg := flag.String("parity", "", "debug: sibling-word parity, e.g. header,cookie")
 	flag.Parse()
+	if *listsyms {
+		abs, _ := filepath.Abs(*repo)
+		ctx, err := an.Load(abs, "dump", "quick")
+		if err != nil {
+			fmt.Fprintln(os.Stderr, err)
+			os.Exit(2)
+		}
+		for _, l := range ctx.AllSymbols() {
+			fmt.Println(l)
+		}
+		return
+	}
+	if *listinits {
+		abs, _ := filepath.Abs(*repo)
+		ctx, err := an.Load(abs, "dump", "quick")
+		if err != nil {
+			fmt.Fprintln(os.Stderr, err)
+			os.Exit(2)
+		}
+		inits := ctx.GlobalInits()
+		var dirs []string
+		for d := range inits {
+			dirs = append(dirs, d)
+		}
+		sort.Strings(dirs)
+		fmt.Println("package an\n\n// referenceGlobalInits: initialiser text of the package-level variables of the reference tree\n// (generated with `goacheck -listinits > an/refinits.go`); see canonGlobal.\nvar referenceGlobalInits = map[string]map[string]string{")
+		for _, d := range dirs {
+			var names []string
+			for n := range inits[d] {
+				names = append(names, n)
+			}
+			sort.Strings(names)
+			fmt.Printf("\t%q: {\n", d)
+			for _, n := range names {
+				fmt.Printf("\t\t%q: %q,\n", n, inits[d][n])
+			}
+			fmt.Println("\t},")
+		}
+		fmt.Println("}")
+		return
+	}
 	if *listfuncs {
 		abs, _ := filepath.Abs(*repo)
 		ctx, err := an.Load(abs, "dump", "quick")
@@ -181,6 +224,7 @@ func main() {
 		fmt.Fprintln(os.Stderr, "BROKEN: cannot load", abs, ":", err)
 		os.Exit(2)
 	}
+	props.Current = ctx
 	known, err := an.LoadKnown(filepath.Join(*verif, "known_findings.json"))
 	if err != nil {
 		fmt.Fprintln(os.Stderr, "BROKEN: known_findings.json:", err)
